@@ -1,5 +1,10 @@
-"""Emit/Unfold under Lift/Try for C07 — filled in when the source model is built."""
+"""Emit/Unfold under Lift/Try for C07 (optional module, present once the source model is built)."""
+import importlib
 
 
 def run_extra(ctx):
-    return
+    try:
+        mod = importlib.import_module("checks.C07_sources")
+    except ModuleNotFoundError:
+        return
+    mod.run_extra(ctx)
